@@ -137,6 +137,24 @@ def txMonitors (P : Params) (lt : LastTx) (chs : List Change) (dOld : Dump) (blo
         if t.typ == 9 && a == issuerHex then
           out := s!"VIOL C21 redeemed-check-overdraws-issuer {c.key} {c.old.getD "0"}->{c.new.getD "0"} value={kvGet lt.kvs "k.value"} code={lt.code}" :: out
     | _ => pure ()
+  -- C14: best price first. Orders this delivery filled (volume reduced or closed; a cancel by the transaction itself is not a
+  -- fill) against the orders of the same side of the same pool that it left exactly as they were.
+  if lt.code == 0 then
+    let cancelled := if t.typ == 36 then s!"o {t.nat "d.ID"}" else ""
+    let filled := chs.filterMap (fun c =>
+      if c.key.startsWith "o " && c.key != cancelled then
+        match c.old.bind (BookEntry.parse c.key) with
+        | some f =>
+          let shrunk := match c.new.bind (BookEntry.parse c.key) with
+            | some g => g.wantSell < f.wantSell || g.wantBuy < f.wantBuy
+            | none => true
+          if shrunk then some f else none
+        | none => none
+      else none)
+    if !filled.isEmpty then
+      let untouched := dOld.toList.filterMap (fun (k, v) =>
+        if k.startsWith "o " && !(chs.any (fun c => c.key == k)) then BookEntry.parse k v else none)
+      out := (orderPriorityMonitor filled untouched).map (fun m => m ++ s!" type={t.typ}") ++ out
   -- C27: the commission in price-table terms
   let priceTag := kvGet lt.kvs "tx.commission_price"
   if priceTag != "" then
